@@ -93,11 +93,12 @@ STALE = 'TITL an old backup of something else\nCELL 0.71073 5 5 5 90 90 90\nEND\
 
 def file_text(f):
     fs = gen.FileSpec(fvars=[round(0.5 + 0.01 * i, 5) for i in range(f['nfv'])])
-    head = [('CGLS' if f['cgls'] else 'L.S.') + ' 10', 'BOND', 'FMAP 2', 'PLAN 20', 'WGHT 0.1 0.2']
+    ls = f.get('ls') or ['CGLS' if f['cgls'] else 'L.S.', 10]
+    head = [' '.join(str(t) for t in ls), 'BOND', 'FMAP 2', 'PLAN 20', 'WGHT 0.1 0.2']
     if f['acta'] == 'after_unit':
-        head.insert(0, 'ACTA 50')
+        head.insert(0, f.get('acta_text') or 'ACTA 50')
     elif f['acta'] == 'later':
-        head.insert(2, 'ACTA 50')
+        head.insert(2, f.get('acta_text') or 'ACTA 50')
     fs.header = head
     fs.body = [gen.AtomSpec(f'C{i}', 1, (0.1 * i, 0.2, 0.3), 11.0, (0.03,)) for i in range(1, 5)]
     return fs.text()
@@ -146,7 +147,7 @@ class Labels:
                 shx.read_string(data.decode('latin1'))
             except BaseException:
                 pass
-        return doc_of(shx, self)
+        return doc_of(shx, self, data)
 
     def raw(self, data, hint='x'):
         lab = self.label(data, hint)
@@ -159,8 +160,30 @@ def dow_of(data):
     return sum(1 for ln in data.decode('latin1').splitlines() if ln[:4].upper() == 'FVAR') > 1
 
 
-def doc_of(shx, labels):
-    """the document as the property sees it, through the public API only"""
+def ls_params_of_text(data):
+    """nrf and nextra of the L.S./CGLS instruction as the FILE states them (by construction, not through the library):
+    `L.S. n`, `L.S. n nrf`, `L.S. n nrf nextra`; parameters that are not given have SHELXL's default 0"""
+    for ln in data.decode('latin1').splitlines():
+        tok = ln.split()
+        if tok and tok[0].upper() in ('L.S.', 'CGLS'):
+            tail = [int(t) for t in tok[2:4]]
+            return (tail + [0, 0])[:2]
+    return None
+
+
+def ls_params_of_obj(shx):
+    """the same of the object in memory"""
+    out = []
+    for name in ('nrf', 'nextra'):
+        v = getattr(shx.cycles, name, None)
+        if v is None:
+            v = getattr(shx.cycles, '_' + name)
+        out.append(0 if v in ('', None) else int(v))
+    return out
+
+
+def doc_of(shx, labels, data=None):
+    """the document as the property sees it: the object through its API, a file (`data`) additionally by its text"""
     try:
         acta = None
         if shx.acta is not None:
@@ -169,8 +192,10 @@ def doc_of(shx, labels):
                  for a in shx.atoms.all_atoms]
         rest = (atoms, [round(f.fvar_value, 5) for f in shx.fvars.fvars],
                 [float(v) for v in shx.unit.values], [e.upper() for e in shx.sfac_table.elements_list],
-                str(shx.wght).split(), str(shx.hklf).split(), bool(shx.cycles.cgls))
-        return dict(acta=acta, cycles=int(shx.cycles.number), rest=sha(repr(rest).encode()))
+                str(shx.wght).split(), str(shx.hklf).split())
+        ls = ls_params_of_obj(shx) if data is None else ls_params_of_text(data)
+        kw = 'CGLS' if shx.cycles.cgls else 'L.S.'
+        return dict(acta=acta, cycles=int(shx.cycles.number), rest=f'{sha(repr(rest).encode())}/{kw} n {ls[0]} {ls[1]}')
     except Exception as e:  # not a usable model (empty / garbage file)
         return dict(acta=None, cycles=-1, rest='unusable')
 
@@ -220,6 +245,11 @@ def play(case, bindir, root):
         init = observe(shx, labels, None)
         init['mem']['dow'] = dow_of(text)
         for k, call in enumerate(case['calls']):
+            if 'op' in call:
+                rec = between(shx, call, labels, out)
+                if rec is not None:
+                    steps.append(dict(rec, item=call, k=k))
+                continue
             with open('c19_outcome', 'w') as fh:
                 fh.write(f'EXIT={call["exit"]}\nRES={call["res"]}\nLST={call["lst"]}\nRUN={k}\n')
             pre_res = labels.raw(read(NAME + '.res'), 'r')
@@ -234,7 +264,7 @@ def play(case, bindir, root):
                     raised = type(e).__name__
             os.chdir(work)
             ran = os.path.exists(f'c19_log/ran_{k}')
-            rec = dict(obs=observe(shx, labels, pre_res), raised=raised, ret=ret, ran=ran,
+            rec = dict(item=call, k=k, obs=observe(shx, labels, pre_res), raised=raised, ret=ret, ran=ran,
                        ins_at_run=None, bak_at_run=None, pre_res=pre_res)
             if ran:
                 d = read(f'c19_log/ins_{k}')
@@ -255,9 +285,41 @@ def play(case, bindir, root):
     return labels, init, steps
 
 
+def between(shx, op, labels, out):
+    """what the user does to the object between two refine() calls: `reload` = shx.reload() of the .res as it is;
+    `reread` = the .res is rewritten (another program, an editor) and read with read_file(). Returns None when the
+    step is not possible (no usable .res to reload)."""
+    write = None
+    if op['op'] == 'reload':
+        cur = read(NAME + '.res')
+        if cur is None or labels.parse(cur)['cycles'] == -1:
+            return None
+    else:
+        data = file_text(op['file']).encode()
+        with open(NAME + '.res', 'wb') as fh:
+            fh.write(data)
+        write = labels.label(data, 'u')
+    raised = None
+    with contextlib.redirect_stdout(out):
+        try:
+            if op['op'] == 'reload':
+                shx.reload()
+            else:
+                shx.read_file(NAME + '.res')
+        except BaseException as e:
+            if isinstance(e, KeyboardInterrupt):
+                raise
+            raised = type(e).__name__
+    return dict(op=True, write=write, raised=raised, obs=observe(shx, labels, None))
+
+
 def request(case, labels, init, steps):
     rs = []
-    for call, rec in zip(case['calls'], steps):
+    for rec in steps:
+        call = rec['item']
+        if rec.get('op'):
+            rs.append(dict(op='load', write=rec['write'], obs=dict(st=rec['obs'])))
+            continue
         rs.append(dict(cycles=call['cycles'], backup=call['backup'], exit=call['exit'], res=rec['res_out'],
                        lst=LST_CLASS[call['lst']], obs=dict(st=rec['obs'], raised=rec['raised'] is not None)))
     return dict(p='C19', op='seq', table=list(labels.table.values()), init=init, steps=rs)
@@ -294,13 +356,28 @@ def evaluate(ctx, cases, stream=None):
 
 def judge(ctx, case, init, steps, ans):
     f = case['file']
-    acta = 'present' if f['acta'] != 'none' else 'absent'
     pre = init
     any_ran = False
-    for k, (call, rec, mod, spec) in enumerate(zip(case['calls'], steps, ans['model'], ans['spec'])):
-        any_ran = any_ran or rec['ran']
+    for rec, mod, spec in zip(steps, ans['model'], ans['spec']):
+        call, k = rec['item'], rec['k']
         obs = rec['obs']
         sub = dict(case, calls=case['calls'][:k + 1])
+        if rec.get('op'):
+            mst = mod['st']
+            diffs = [(key, a, b) for key, a, b in (('res', mst['fs']['res'], obs['fs']['res']),
+                                                   ('mem', mst['mem']['doc'], obs['mem']['doc']),
+                                                   ('raised', mod['exc'] is not None, rec['raised'] is not None)) if a != b]
+            ctx.count(['call', sub], nontrivial=False, tags=[f'between={call["op"]}'])
+            if diffs:
+                what = '; '.join(f'{k_}: model {m} / implementation {o}' for k_, m, o in diffs)
+                ctx.fail(f'C19|model|between={call["op"]}|{"+".join(d[0] for d in diffs)}', f'step {k + 1} ({call}): {what}',
+                         dict(case=sub, step=k, stream='protocol', expected=[d[1] for d in diffs], actual=[d[2] for d in diffs],
+                              model=mst), kind='correspondence')
+                return
+            pre = obs
+            continue
+        any_ran = any_ran or rec['ran']
+        acta = 'present' if pre['mem']['doc']['acta'] else 'absent'       # in the model right before this call
         oc = outcome_class(call, spec)
         where = f'{oc}|lst={call["lst"]}|backup={"on" if call["backup"] else "off"}|acta={acta}'
         hyp = mod['hyp']
@@ -319,7 +396,7 @@ def judge(ctx, case, init, steps, ans):
 
         # ---- property: the specification's clauses on the observed states -------------------------------------
         if not spec['ins'] or (rec['ran'] and rec['ins_at_run'] != obs['fs']['ins']):
-            sig = f'C19|ins|{where}|fvar-lines={2 if f["nfv"] > 7 else 1}'
+            sig = f'C19|ins|{where}|fvar-lines={2 if f["nfv"] > 7 else 1}|cycles={"keep" if call["cycles"] is None else "set"}'
             got = obs['fs']['ins'] and obs['fs']['ins']['written']
             ctx.fail(sig, f'the .ins handed to SHELXL is not the current model without ACTA and with cycles '
                           f'{spec["want_ins"]["cycles"]}: parsed back it is {got}, expected {spec["want_ins"]} '
@@ -378,8 +455,62 @@ def judge(ctx, case, init, steps, ans):
         pre = obs
 
 
-def mk_file(acta, nfv=3, cgls=False):
-    return dict(acta=acta, nfv=nfv, cgls=cgls)
+def mk_file(acta, nfv=3, cgls=False, ls=None, acta_text=None):
+    f = dict(acta=acta, nfv=nfv, cgls=cgls)
+    if ls:
+        f['ls'] = ls
+        f['cgls'] = ls[0] == 'CGLS'
+    if acta_text:
+        f['acta_text'] = acta_text
+    return f
+
+
+#: every parameter form of the instruction: n; n nrf; n nrf nextra; zeros and a negative nrf in each slot; both keywords
+LS_FORMS = [['L.S.', 10], ['L.S.', 10, 2], ['L.S.', 10, 0, 54], ['L.S.', 10, 3, 54], ['L.S.', 0], ['L.S.', 10, 0],
+            ['L.S.', 10, 2, 0], ['L.S.', 10, -1], ['L.S.', 0, 0, 9], ['CGLS', 10], ['CGLS', 10, 0, 54], ['CGLS', 5, -2, 0],
+            ['CGLS', 0, 0, 7], ['CGLS', 8, 4]]
+
+
+def ls_cases():
+    """the .ins is the model with ONLY the cycle number changed: every form of L.S./CGLS x cycles given / not given,
+    over two calls (what the first call leaves in the object is what the second one writes)"""
+    out = []
+    ok = dict(exit=0, res='good', lst='good', backup=True)
+    bad = dict(exit=1, res='good', lst='good', backup=True)
+    for i, (ls, cyc, acta) in enumerate(itertools.product(LS_FORMS, [None, 0, 7], ['none', 'later'])):
+        first = dict(ok if i % 3 else bad, cycles=cyc)
+        out.append(dict(file=mk_file(acta, ls=ls), stale_bak=False, hkl=True,
+                        calls=[first, dict(ok, cycles=None if cyc is not None else 3)]))
+    return out
+
+
+BETWEEN = [dict(op='reload'),
+           dict(op='reread', file=mk_file('none', nfv=4)),
+           dict(op='reread', file=mk_file('later', nfv=4, acta_text='ACTA 45')),
+           dict(op='reread', file=mk_file('after_unit', nfv=5, ls=['L.S.', 6, 0, 12]))]
+BETWEEN_OUT = [(0, 'good', 'good'), (1, 'good', 'good'), (0, 'empty', 'good'), (-11, 'truncated', 'missing')]
+
+
+def between_cases(rng, thorough):
+    """one object, refine() - the user re-reads the model (with / without ACTA, another ACTA) - refine() again:
+    what a call does depends on the model as it is right before it and on nothing an earlier call kept"""
+    out = []
+    n = 0
+    for a, op, b, acta in itertools.product(BETWEEN_OUT, BETWEEN, BETWEEN_OUT, ['later', 'none']):
+        for backs in ([(True, True), (True, False), (False, True), (False, False)] if thorough else [(True, n % 2 == 0)]):
+            n += 1
+            c1 = dict(exit=a[0], res=a[1], lst=a[2], backup=backs[0], cycles=4)
+            c2 = dict(exit=b[0], res=b[1], lst=b[2], backup=backs[1], cycles=None)
+            out.append(dict(file=mk_file(acta), stale_bak=False, hkl=True, calls=[c1, op, c2]))
+    for _ in range(120 if thorough else 30):     # longer ones: call, re-read, call, re-read, call
+        calls = []
+        for j in range(3):
+            o = rng.choice(BETWEEN_OUT)
+            calls.append(dict(exit=o[0], res=o[1], lst=o[2], backup=rng.random() < 0.7, cycles=rng.choice([None, 2, 9])))
+            if j < 2:
+                calls.append(rng.choice(BETWEEN))
+        out.append(dict(file=mk_file(rng.choice(['later', 'none', 'after_unit'])), stale_bak=False, hkl=True, calls=calls))
+    return out
 
 
 def singles():
@@ -424,7 +555,7 @@ def with_cycles(calls):
 
 def run(ctx):
     ctx.rule = ('one case = a freshly read file (ACTA absent / directly after UNIT / two lines later; one or two FVAR lines; '
-                'L.S. or CGLS) in a directory (with or without an old .shx-bak, with or without .hkl) + 1..3 refine() calls, '
+                'L.S. or CGLS in every parameter form) in a directory (with or without an old .shx-bak, with or without .hkl) + 1..3 refine() calls (optionally with a reload()/read_file() of a rewritten .res between them), '
                 'each with an outcome of the stand-in (status 0 / exit 1,3,127,255 / killed by signal 6,9,11,15 x .res written from .ins/'
                 'empty/removed/untouched/garbage/truncated '
                 'x .lst good/missing/short/empty/no-LATT/no-final), backup on/off, cycles None/0/3/4/6/7; one evaluation per '
@@ -432,6 +563,8 @@ def run(ctx):
     ctx.assumptions = ['result files are empty or at least 10 bytes long (hypothesis `plausible`)',
                        'debug=False, verbose=False (debug mode re-raises by design)',
                        'cwd is the directory of the .res file (refine() writes <stem>.ins relative to cwd)',
+                       'between calls the model is changed through reload()/read_file() only (add_line/replace_line work on raw '
+                       'lines that bypass shx.acta: C04/C08 territory)',
                        'the stand-in derives a good .res from the .ins it was given (SHELXL never adds ACTA)']
     cases = singles()
     n_single = len(cases)
@@ -452,6 +585,10 @@ def run(ctx):
     for i, seq in enumerate(list(pairs) + list(triples)):
         for acta in (['none', 'later'] if thorough else [['later', 'none', 'after_unit'][i % 3]]):
             cases.append(dict(file=mk_file(acta), stale_bak=(i % 7 == 3), hkl=True, calls=with_cycles(seq)))
+    extra = ls_cases() + between_cases(ctx.rng, thorough)
     ctx.extra['single_calls'] = n_single
+    ctx.extra['ls_forms'] = f'{len(LS_FORMS)} forms of L.S./CGLS x cycles None/0/7 x ACTA, two calls each'
+    ctx.extra['between'] = 'refine / reload or read_file of a rewritten .res (no ACTA, another ACTA, ACTA after UNIT) / refine'
+    cases = extra + cases        # the multi-step histories first
     for i in range(0, len(cases), 400):
         evaluate(ctx, cases[i:i + 400])
